@@ -158,15 +158,10 @@ Print Assumptions C09_walk_limit.
 Example C09_walk_limit_text : err_ename "ErrWalkLimit" = str "too many wnames in walk".
 Proof. exact walk_limit_text. Qed.
 
-(* the client implements the Session interface method for method *)
-Theorem C09_signatures :
-  forallb (fun m => match find (fun e => String.eqb (fst (fst (fst e))) (cm_name m)) gen_session with
-                    | Some (_, ps, v, rs) =>
-                        (Nat.eqb (List.length ps) (List.length (cm_params m))) && Bool.eqb v (cm_variadic m)
-                        && Nat.eqb (List.length rs) (List.length (cm_results m))
-                    | None => false
-                    end) gen_client = true
-  /\ List.length gen_client = List.length gen_session.
+(* the client implements the Session interface method for method: same
+   parameter kinds, variadicity and result kinds (so the same [wf_args] and
+   [clip_args] speak about both ends) *)
+Theorem C09_signatures : signatures_match = true.
 Proof. exact client_signatures_match. Qed.
 Print Assumptions C09_signatures.
 
